@@ -87,15 +87,44 @@ static char sid[32];
 static int child_tid;
 static int w_bufsize;
 
+static char seen_sid[8][32];
+static int nseen;
+
+/* at an exec: every session file that exists belongs to an image that is gone */
+static void mark_seen_sids(const char *dir)
+{
+	DIR *d = opendir(dir);
+	struct dirent *e;
+	int k;
+	while (d && (e = readdir(d))) {
+		if (strncmp(e->d_name, "sid-", 4))
+			continue;
+		for (k = 0; k < nseen; k++)
+			if (!strncmp(seen_sid[k], e->d_name + 4, 16))
+				break;
+		if (k == nseen && nseen < 8)
+			snprintf(seen_sid[nseen++], 32, "%.16s", e->d_name + 4);
+	}
+	if (d)
+		closedir(d);
+}
+
+/* the session of the image that runs now: the sid-*.map that was not there at the last exec */
 static void find_sid(const char *dir)
 {
 	DIR *d = opendir(dir);
 	struct dirent *e;
+	int k;
 	while (d && (e = readdir(d))) {
-		if (!strncmp(e->d_name, "sid-", 4)) {
-			snprintf(sid, sizeof(sid), "%.16s", e->d_name + 4);
-			break;
-		}
+		if (strncmp(e->d_name, "sid-", 4))
+			continue;
+		for (k = 0; k < nseen; k++)
+			if (!strncmp(seen_sid[k], e->d_name + 4, 16))
+				break;
+		if (k < nseen)
+			continue;
+		snprintf(sid, sizeof(sid), "%.16s", e->d_name + 4);
+		break;
 	}
 	if (d)
 		closedir(d);
@@ -214,7 +243,15 @@ static int mode_kill(int argc, char **argv)
 		if (!WIFSTOPPED(status))
 			continue;
 		sig = WSTOPSIG(status);
-		if (sig == SIGTRAP) { /* exec */
+		if (sig == SIGTRAP) { /* exec (also of a second image later on): new session, new buffers to watch */
+			int k;
+			for (k = 0; k < nwb; k++) {
+				munmap(wb[k].b, w_bufsize);
+				close(wb[k].fd);
+			}
+			nwb = 0;
+			sid[0] = 0;
+			mark_seen_sids(dir);
 			ptrace(PTRACE_CONT, pid, 0, 0);
 			continue;
 		}
@@ -309,17 +346,25 @@ static int mode_kill(int argc, char **argv)
 		fclose(fp);
 	}
 	printf("\n");
-	/* whatever is left of this session in /dev/shm */
-	if (sid[0]) {
-		char pat[128];
-		glob_t g;
-		size_t i;
-		snprintf(pat, sizeof(pat), "/dev/shm/uftrace-%s-*", sid);
-		if (glob(pat, 0, NULL, &g) == 0) {
-			for (i = 0; i < g.gl_pathc; i++)
-				unlink(g.gl_pathv[i]);
-			globfree(&g);
+	/* whatever is left of these sessions in /dev/shm */
+	{
+		DIR *d = opendir(dir);
+		struct dirent *e;
+		while (d && (e = readdir(d))) {
+			char pat[128];
+			glob_t g;
+			size_t i;
+			if (strncmp(e->d_name, "sid-", 4))
+				continue;
+			snprintf(pat, sizeof(pat), "/dev/shm/uftrace-%.16s-*", e->d_name + 4);
+			if (glob(pat, 0, NULL, &g) == 0) {
+				for (i = 0; i < g.gl_pathc; i++)
+					unlink(g.gl_pathv[i]);
+				globfree(&g);
+			}
 		}
+		if (d)
+			closedir(d);
 	}
 	return 0;
 }
